@@ -1,6 +1,6 @@
 (* Loop.v — binary-fuel loop combinator: runs f at most 2^(psize p) times. *)
 From Coq Require Import PArith NArith Lia List Arith.
-Open Scope nat_scope.
+Local Open Scope nat_scope.
 Set Implicit Arguments.
 Section Loop.
   Variables (A B : Type) (f : A -> A + B).
